@@ -161,6 +161,16 @@ def harness(ctx, shard):
         ctx.check("secondary-rows-solved", full_res[r] == 0, case)
     for a, r in enumerate(P):
         ctx.check("primary-rows-equal-reduced-residual", full_res[r] == red_res[a], case)
+    # expanding is a pure function of the assembled system: a second expansion (of another
+    # arbitrary vector) and a repeated expansion of the first one give consistent results
+    xq = ctx.reals("xq", len(pc), -4, 4)
+    Xq = np.asarray(es.expand_schur_complement_solution(xq), dtype=object)
+    X_again = np.asarray(es.expand_schur_complement_solution(xp), dtype=object)
+    for i in range(n):
+        ctx.check("repeated-expansion-same-result", lift(X_again[i]) == lift(X[i]), case)
+    resq = [z3.Sum([lift(J[i, j]) * lift(Xq[j]) for j in range(n)]) - lift(b[i]) for i in range(n)]
+    for r in S:
+        ctx.check("second-expansion-secondary-rows-solved", resq[r] == 0, case)
     m = ctx.reach("end")
     if m is not None and shard["inverter"] == "diag":
         ctx.validate_replay("float-run", case, model=m)
@@ -197,6 +207,7 @@ def replay_case(case):
     if np.linalg.cond(Sm) > 1e8:
         return False, "reduced system (near) singular at this point"
     xp = np.linalg.solve(Sm, rhs)
+    es.expand_schur_complement_solution(np.ones(len(pc)) + np.array(case["xp"], dtype=float) ** 2)   # an earlier expansion
     X = es.expand_schur_complement_solution(xp)
     Xf = np.linalg.solve(J, b)
     if not np.allclose(X, Xf, rtol=1e-6, atol=1e-8 * (1 + np.abs(Xf).max())):
